@@ -676,6 +676,112 @@ theorem readFrames_stream (ps : List Bytes) (rest : Bytes) (fuel : Nat)
 
 example : readFrames ([0, 0, 0, 1, 7] ++ [0, 0, 0, 0] ++ [0, 0, 0, 2, 8, 9] ++ [0, 0]) = ([[7], [], [8, 9]], [0, 0]) := by decide
 
+/-! ### the body stage: `ParseRequest` = header, then `ParseRequestBody` (kmsg = parameter `known`/`dec`) -/
+
+/-- `ParseRequestBody` never panics — for EVERY header, in particular one whose client id is null (`clientId = none`), whatever kmsg
+says about the key and the body (unknown key, decode error, decoded). -/
+theorem parseRequestBody_total {R : Type} (known : Int → Bool) (dec : Int → Int → Bytes → Option R) (h : Header) (body : Bytes) :
+    parseRequestBody known dec h body ≠ .panic := by
+  unfold parseRequestBody parseRequestBodyWith decodeErrArgs
+  split
+  · simp
+  · split <;> simp [GoResult.bind]
+
+/-- (1d) `ParseRequest` (header AND body stage) never panics: for every byte string, every flexibility table and every outcome of
+the kmsg decoder on whatever body the header stage hands it. -/
+theorem parseRequest_total {R : Type} (flex : Int → Int → Bool) (known : Int → Bool) (dec : Int → Int → Bytes → Option R) (b : Bytes) :
+    parseRequest flex known dec b ≠ .panic := by
+  unfold parseRequest parseRequestWith
+  have hh := parseHeader_total flex b
+  cases hp : parseHeader flex b with
+  | ok x => exact parseRequestBody_total known dec x.1 x.2
+  | err => simp [GoResult.bind]
+  | panic => exact absurd hp hh
+
+/-- Exactly when it succeeds: the header parsed, kmsg knows the key and decoded the body the header stage returned; the header
+returned is the parsed one, unchanged. -/
+theorem parseRequest_ok_iff {R : Type} (flex : Int → Int → Bool) (known : Int → Bool) (dec : Int → Int → Bytes → Option R) (b : Bytes)
+    (h : Header) (r : R) :
+    parseRequest flex known dec b = .ok (h, r) ↔
+      ∃ body, parseHeader flex b = .ok (h, body) ∧ known h.key = true ∧ dec h.key h.ver body = some r := by
+  unfold parseRequest parseRequestWith parseRequestBodyWith decodeErrArgs
+  cases hp : parseHeader flex b with
+  | ok x =>
+    obtain ⟨h', body'⟩ := x
+    simp only [GoResult.bind]
+    constructor
+    · intro hq
+      by_cases hk : known h'.key = true
+      · simp only [hk, Bool.not_true, Bool.false_eq_true, if_false] at hq
+        cases hd : dec h'.key h'.ver body' with
+        | some r' =>
+          simp only [hd] at hq
+          injection hq with hq; injection hq with h1 h2
+          subst h1; subst h2
+          exact ⟨body', rfl, hk, hd⟩
+        | none => simp [hd] at hq
+      · have hk' : known h'.key = false := by simpa using hk
+        simp [hk'] at hq
+    · rintro ⟨body, hb, hk, hd⟩
+      injection hb with hb; injection hb with h1 h2
+      subst h1; subst h2
+      simp [hk, hd]
+  | err => simp [GoResult.bind]
+  | panic => simp [GoResult.bind]
+
+/-- A body kmsg cannot decode (truncated, garbage), or a key kmsg does not know, is an ERROR — for every header that parsed, null
+client id included. -/
+theorem parseRequest_decode_error {R : Type} (flex : Int → Int → Bool) (known : Int → Bool) (dec : Int → Int → Bytes → Option R) (b : Bytes)
+    (h : Header) (body : Bytes) (hp : parseHeader flex b = .ok (h, body)) (hd : known h.key = false ∨ dec h.key h.ver body = none) :
+    parseRequest flex known dec b = .err := by
+  unfold parseRequest parseRequestWith parseRequestBodyWith decodeErrArgs
+  rw [hp]
+  simp only [GoResult.bind]
+  rcases hd with hd | hd
+  · simp [hd]
+  · split
+    · rfl
+    · simp [hd]
+
+/-- The seeded shape, end to end: a request as a client writes it (any well-formed header — the client id may be NULL —, any
+well-formed tagged-field section, any body) whose body kmsg rejects, is answered with an error, not a crash. -/
+theorem parseRequest_malformed_body_any_client_id {R : Type} (flex : Int → Int → Bool) (known : Int → Bool)
+    (dec : Int → Int → Bytes → Option R) (h : Header) (hw : h.wf) (tags : List (Nat × Bytes)) (htw : TagsWf tags) (body : Bytes)
+    (hd : dec h.key h.ver body = none) :
+    parseRequest flex known dec (encodeHeader h (flex h.key h.ver) tags ++ body) = .err :=
+  parseRequest_decode_error flex known dec _ h body (parseHeader_encode_aux flex h hw tags htw body) (Or.inr hd)
+
+/-- What the totality theorem excludes: an error message that dereferences the client id (`*header.ClientID`) panics on a request
+with a null client id and an undecodable body (Metadata v1, correlation 1, client id null, empty body). -/
+theorem parseRequestDeref_panics :
+    ∃ b, parseRequestWith (R := Unit) decodeErrArgsDeref (fun _ _ => false) (fun _ => true) (fun _ _ _ => none) b = .panic :=
+  ⟨[0, 3, 0, 1, 0, 0, 0, 1, 0xff, 0xff], by decide⟩
+
+/-- … while that variant is fine whenever a client id is present: the failure needs BOTH a null client id and a rejected body. -/
+theorem parseRequestDeref_needs_null_client_id {R : Type} (flex : Int → Int → Bool) (known : Int → Bool)
+    (dec : Int → Int → Bytes → Option R) (b : Bytes) (h : Header) (body : Bytes) (hp : parseHeader flex b = .ok (h, body))
+    (hc : h.clientId ≠ none) : parseRequestWith decodeErrArgsDeref flex known dec b ≠ .panic := by
+  unfold parseRequestWith parseRequestBodyWith decodeErrArgsDeref
+  rw [hp]
+  simp only [GoResult.bind]
+  split
+  · simp
+  · split
+    · simp
+    · cases hcid : h.clientId with
+      | none => exact absurd hcid hc
+      | some s => simp
+
+set_option maxRecDepth 8000 in
+example : parseRequest (R := Unit) (fun _ _ => false) (fun _ => true) (fun _ _ b => if b.length = 2 then some () else none)
+    [0, 3, 0, 1, 0, 0, 0, 1, 0xff, 0xff, 5, 6] = .ok ({ key := 3, ver := 1, corr := 1, clientId := none }, ()) := by decide
+set_option maxRecDepth 8000 in
+example : parseRequest (R := Unit) (fun _ _ => false) (fun _ => true) (fun _ _ _ => none)
+    [0, 3, 0, 1, 0, 0, 0, 1, 0xff, 0xff, 5] = .err := by decide
+set_option maxRecDepth 8000 in
+example : parseRequest (R := Unit) (fun _ _ => false) (fun k => k != 3) (fun _ _ _ => some ())
+    [0, 3, 0, 1, 0, 0, 0, 1, 0xff, 0xff, 5] = .err := by decide
+
 /-- (5) Parsing is a function of the frame bytes alone (and of kmsg's fixed flexibility table): the model has no
 parser state, so whatever other connections parse before or at the same time, equal frames give equal results.
 Trivial in the model — it NAMES the assumption "no shared mutable state between parses", which the code could break
